@@ -31,6 +31,12 @@ PROP = dict(
          "codes 0x80/0x92/0x10; DISCONNECT / network close; housekeeping clients / retained / inflight / $SYS at "
          "now+{0,3,7,12,200}; configurations: pending-writes queue 1, receive maximum 1-2 (deferral), server receive "
          "maximum 2, maximum message expiry 10, maximum session expiry 5.  Counters compared after every step.  "
+         "In every second history also write faults: a QoS 1/2 PUBLISH or the PUBREL of an open QoS 2 flow whose "
+         "answer cannot be written (MemConn.WriteErr), which leaves a PUBACK / PUBREC / PUBCOMP in flight and ends the "
+         "connection, followed by reconnects with clean start 0 (resend) or 1.  Besides the four counters of the "
+         "statement every step compares, monitor only (no model counterpart), PacketsReceived, MessagesReceived, "
+         "PacketsSent, MessagesSent with the harness' own count of what it fed and what reached the connections, and "
+         "after a $SYS tick ClientsTotal / ClientsDisconnected with the Clients map.  "
          "non-trivial = history of >= 5 steps; distinct = distinct history lines.  Second stream: the forced schedules "
          "of the C35 engine `limit` (every interleaving of the 3 atomic steps of 3 concurrent attach attempts at "
          "limits 1 and 2, with and without takeover, plus random schedules), read by the C38 monitor `statslimit`: "
